@@ -375,6 +375,51 @@ def run(ctx):
         ctx.ob("R06.4", site_key(en, "content runs inside the loop that enters s"), ok, en.where, "executeContent shares the entry loop with configuration.add(s)")
     ctx.guard("R06.4", r4)
 
+    # ------------------------------------------------------------------------------ R06.5
+    ctx.rule("R06.5", "historyValue is a W3C HashTable (`table[foo] = bar` REPLACES the value of foo): HashTable::put, put_move and put_all store "
+                      "through HashMap::insert on self.data, unconditionally, key and value being the parameters (put_all: once per element of "
+                      "the argument's data, in one for loop); no other operation touches self.data there - so the value recorded at the LAST "
+                      "exit is the one restored")
+
+    def r5():
+        n_ins = 0
+        for name in ("put", "put_move", "put_all"):
+            fn = F.fn("fsm::HashTable::<K, T>::" + name) if F.has_fn("fsm::HashTable::<K, T>::" + name) else F.fn("fsm::HashTable::" + name)
+            selfb = fn.params[0]["b"]
+
+            def on_data(e):
+                f = hirq.field_of(e, NO_T)
+                return bool(f) and f[1] == "data" and local_of(f[0], NO_T) == selfb
+            touching = [c for c in fn.walk() if c.get("k") == "mcall" and on_data(c["r"])]
+            ins = [c for c in touching if c["m"] == "insert" and path_matches(c.get("p") or "", "HashMap::insert")]
+            others = [c["m"] for c in touching if c not in ins]
+            ok = len(ins) == 1 and not others
+            detail = "operations on self.data: %s" % [c["m"] for c in touching]
+            if ok:
+                c = ins[0]
+                n_ins += 1
+                gts = guard_terms(fn, c)
+                loops = hirq.enclosing_loops(fn, c)
+                if name == "put_all":
+                    lp_ok = len(loops) == 1 and loops[0].get("k") == "for"
+                    src = hirq.field_of(loops[0]["iter"], NO_T) if lp_ok else None
+                    lp_ok = lp_ok and bool(src) and src[1] == "data" and param_index(fn, src[0]) == 1
+                    lv = [b for b, info in fn.bindings().items() if info.get("from") == "for" and info.get("node") is loops[0]] if lp_ok else []
+                    a0, a1 = local_of(hirq.peel(c["a"][0])), local_of(hirq.peel(c["a"][1]))
+                    args_ok = lp_ok and len(lv) == 2 and a0 in lv and a1 in lv and a0 != a1
+                    ok = lp_ok and args_ok and not gts
+                    detail += "; one `for` over t.data: %s; insert(key, value) of the loop element: %s; conditions: %s" % (lp_ok, args_ok, [(show(g), p) for g, p, _ in gts])
+                else:
+                    args_ok = param_index(fn, hirq.peel(c["a"][0])) == 1 and param_index(fn, hirq.peel(c["a"][1])) == 2
+                    ok = args_ok and not gts and not loops
+                    detail += "; insert(k, v) of the parameters: %s; conditions: %s" % (args_ok, [(show(g), p) for g, p, _ in gts])
+            ctx.ob("R06.5", site_key(fn, "replaces the value through HashMap::insert, unconditionally"), ok, fn.where, detail)
+        ctx.floor("R06.5", "HashMap::insert sites in HashTable::put*", n_ins, 3)
+        ex = F.fn(ALG + "exitStates")
+        pub = [c for c in ex.walk() if c.get("k") == "mcall" and c["m"] in ("put", "put_move", "put_all") and is_field_of(c["r"], "historyValue")]
+        ctx.floor("R06.5", "historyValue.put* sites in exitStates", len(pub), 1)
+    ctx.guard("R06.5", r5)
+
 
 # ------------------------------------------------------------------------------------------ helpers
 
